@@ -462,7 +462,10 @@ fn sections(rng: &mut Rng) {
             let tol = 0.02 * scale + 10.0 * core_tol + if le == Edge::ConstRadius || te == Edge::ConstRadius { 10.0 * core_tol } else { 0.0 };
             let (ta, tb) = (a.geo.find_tmax(), b.geo.find_tmax());
             v.require((ta.radius() - tb.radius()).abs() <= tol, "airfoil.invariant_max_thickness", || format!("{} vs {}", ta.radius(), tb.radius()));
-            v.require((a.geo.camber.length() - b.geo.camber.length()).abs() <= 5.0 * tol, "airfoil.invariant_camber_length", || format!("{} vs {} le={le:?} te={te:?}", a.geo.camber.length(), b.geo.camber.length()));
+            // an edge method may decline an edge (the camber then ends at the last station): lengths are
+            // comparable when the same edges were found in both frames
+            let same_edges = a.geo.leading_edge.is_some() == b.geo.leading_edge.is_some() && a.geo.trailing_edge.is_some() == b.geo.trailing_edge.is_some();
+            v.require(!same_edges || (a.geo.camber.length() - b.geo.camber.length()).abs() <= 5.0 * tol, "airfoil.invariant_camber_length", || format!("{} vs {} le={le:?} te={te:?}", a.geo.camber.length(), b.geo.camber.length()));
             if let (Some(x), Some(y)) = (&a.geo.leading_edge, &b.geo.leading_edge) {
                 let tol = tol + if le == Edge::ConstRadius { fam.r0 } else { 0.0 };
                 v.require((x.point - inv * y.point).norm() <= 5.0 * tol, "airfoil.invariant_leading_edge", || format!("{:e} le={le:?}", (x.point - inv * y.point).norm()));
